@@ -1,4 +1,5 @@
 import Syzgy.Model.Driver
+import Syzgy.Model.QueryDriver
 
 open Syzgy
 
@@ -6,7 +7,10 @@ def step (d : DState) (line : String) : DState × String :=
   let toks := (line.trimAscii.toString.splitOn " ").filter (· ≠ "")
   match storageStep d toks with
   | some r => r
-  | none => (d, "bad-op")
+  | none =>
+    match Syzgy.Query.queryStep toks with
+    | some out => (d, out)
+    | none => (d, "bad-op")
 
 partial def loop (hin hout : IO.FS.Stream) (d : DState) : IO Unit := do
   let line ← hin.getLine
